@@ -9,6 +9,11 @@ from fractions import Fraction
 import vlib, femgen, meshlib, geomgen
 from props import c01
 
+# everything else fmesher hands to Triangle on the non-periodic path (markers, holes, regions, area constraints, switches) and the
+# files it writes from Triangle's answer: PolyWrite.v, theorems in Properties_C02_poly.v (C02_ / C18_ / C01_ statements), harness
+# h_polywrite.cpp (props/xpoly.py)
+EXTENSIONS = ["xpoly"]
+EXTRA_PROPERTY_FILES = ["C02_poly"]
 LEVEL = "proof"
 COQ_MODULES = ["Discretize"]
 ASSUMPTIONS = [
@@ -204,4 +209,5 @@ def correspond(ctx):
     cov["samples"] = [dict(features=c[0].get("features"), lines=len(c[2]), arcs=len(c[3])) for c in cases[:4]]
     cov["values_compared"] = tot
     cov["bit_identical"] = nb
-    return dis
+    from props import ext as extmod
+    return list(dis) + extmod.run(ctx, EXTENSIONS)
